@@ -36,7 +36,7 @@ def run(ck):
     # long horizons: tens to hundreds of thousands of cycles mostly spent idle, slices from 1 to 65541 cycles and in one piece,
     # timers started near and above 2^16 / 2^17, audio periods in the thousands (the specification takes quiescent stretches in
     # one step, justified by the Skip lemmas: System!QuietStep / Jump)
-    files += sys_common.record(ck, ck.pick(4, 12), ck.pick(4, 10), tag='long', mode='long', seedoff=900)
+    files += sys_common.record(ck, ck.pick(8, 16), ck.pick(8, 12), tag='long', mode='long', seedoff=900)
     sys_common.validate(ck, files)
     ck.sample_lines(files[0], 1, skip=2)
     ck.assumptions += sys_common.SYS_ASSUMPTIONS + [
